@@ -47,6 +47,9 @@ type Judgement struct {
 	Key      string `json:"key"`  // normalised (clause | site) used for known-findings matching
 	What     string `json:"what"`
 	Replay   string `json:"replay"`
+	// ModelDisagrees: on this case the implementation's observation differs from the model's
+	// prediction, i.e. the behaviour is not one the model (which reproduces the open findings) knows
+	ModelDisagrees bool `json:"modelDisagrees"`
 }
 
 func writeCase(root string, c GCase) error {
@@ -107,6 +110,7 @@ func init() {
 		workers := fs.Int("j", 16, "parallel workers")
 		keep := fs.Bool("keep", false, "keep the scratch module")
 		prop := fs.String("prop", "", "property whose judges run")
+		compile := fs.Bool("compile", false, "type-check every output in its package (C01 judge)")
 		only := fs.String("only", "", "replay file: run just that case")
 		_ = fs.Parse(args)
 
@@ -127,7 +131,11 @@ func init() {
 				cases = append(cases, loadCorpus(*corpus)...)
 			}
 			for i := 0; i < *n; i++ {
-				cases = append(cases, GenCase(*seed, i, *profile))
+				if *profile == "layout" {
+					cases = append(cases, GenLayoutCase(*seed, i))
+				} else {
+					cases = append(cases, GenCase(*seed, i, *profile))
+				}
 			}
 		}
 		for _, c := range cases {
@@ -138,6 +146,7 @@ func init() {
 		sum := SweepSummary{Kind: "front", Seed: *seed, Skipped: map[string]int{}, Features: map[string]int{},
 			CLIClasses: map[string]int{}, ModelStatus: map[string]int{}, ErrorKinds: map[string]int{}}
 		bodies := map[string]bool{}
+		disagreeing := map[string]bool{}
 		var mu sync.Mutex
 		var wg sync.WaitGroup
 		ch := make(chan GCase)
@@ -190,7 +199,11 @@ func init() {
 						sum.Samples = append(sum.Samples, map[string]any{"case": c.Name, "setup": c.Files[c.Setup],
 							"function": rep.ImplFuncs[0].Text, "stderr": rep.Model.Stderr, "features": c.Features})
 					}
+					if len(rep.Diffs) > 0 {
+						disagreeing[c.Name] = true
+					}
 					for _, j := range js {
+						j.ModelDisagrees = len(rep.Diffs) > 0
 						j.Replay = saveReplay(*replayDir, "judge-"+j.Property+"-"+c.Name, c, &rep, map[string]any{"judgement": j})
 						sum.Judgements = append(sum.Judgements, j)
 					}
@@ -198,11 +211,23 @@ func init() {
 				}
 			}()
 		}
+		keepOutputs = *compile
 		for _, c := range cases {
 			ch <- c
 		}
 		close(ch)
 		wg.Wait()
+		if *compile {
+			byName := map[string]GCase{}
+			for _, c := range cases {
+				byName[c.Name] = c
+			}
+			for _, j := range compileJudge(root, byName) {
+				j.ModelDisagrees = disagreeing[j.Case]
+				j.Replay = saveReplay(*replayDir, "judge-C01-"+j.Case, byName[j.Case], nil, map[string]any{"judgement": j})
+				sum.Judgements = append(sum.Judgements, j)
+			}
+		}
 		sum.DistinctBodies = len(bodies)
 		sort.Slice(sum.Disagreements, func(i, j int) bool { return sum.Disagreements[i].Case < sum.Disagreements[j].Case })
 		sort.Slice(sum.Judgements, func(i, j int) bool {
